@@ -66,7 +66,8 @@ Definition inline_marker (id : N) : N :=
   else if id =? I_EMPH_STAR then 42 else if id =? I_EMPH_UNDER then 95 else if id =? I_LINK then 91
   else if id =? I_LINKEND then 93 else if id =? I_IMAGE then 33 else if id =? I_AUTOLINK then 60
   else if id =? I_ENTITY then 38 else if id =? I_STRIKE then 126 else if id =? I_HTMLINLINE then 60
-  else if id =? I_CUSTOM_LETTER then 120 else if id =? I_CUSTOM_PUNCT then 37 else 0.
+  else if id =? I_CUSTOM_LETTER then 120 else if id =? I_CUSTOM_PUNCT then 37
+  else if id =? I_CUSTOM_PAIR then 37 else 0.
 
 Definition add_inline (m : md) (id : N) : md := inline_add_rule m id (inline_marker id) idf.
 
@@ -129,6 +130,7 @@ Definition add_plugin (m : md) (c : N) : md :=
   else if c =? 53 (* 5 *) then core_add_rule m C_CUSTOMCORE idf
   else if c =? 54 (* 6 *) then block_add_rule m R_CUSTOM_A r_before_all
   else if c =? 55 (* 7 *) then block_add_rule m R_CUSTOM_B r_before_all
+  else if c =? 56 (* 8 *) then add_inline m I_CUSTOM_PAIR
   else m.
 
 (* composite shorthands C (cmark::add) and W (html::add) *)
@@ -153,7 +155,7 @@ Definition remove_plugin_rule (m : md) (c : N) : md :=
   else if c =? 88 then rbl R_HTMLBLOCK else if c =? 83 then rco C_SOURCEPOS else if c =? 74 then rco C_FRAGJOIN
   else if (c =? 49) || (c =? 54) then rbl R_CUSTOM_A else if (c =? 50) || (c =? 55) then rbl R_CUSTOM_B
   else if c =? 51 then rin I_CUSTOM_LETTER else if c =? 52 then rin I_CUSTOM_PUNCT
-  else if c =? 53 then rco C_CUSTOMCORE else m.
+  else if c =? 53 then rco C_CUSTOMCORE else if c =? 56 then rin I_CUSTOM_PAIR else m.
 
 Definition has_plugin_rule (m : md) (c : N) : bool :=
   let hin (id : N) := r_contains (md_inline m) id in
@@ -169,7 +171,7 @@ Definition has_plugin_rule (m : md) (c : N) : bool :=
   else if c =? 88 then hbl R_HTMLBLOCK else if c =? 83 then hco C_SOURCEPOS else if c =? 74 then hco C_FRAGJOIN
   else if (c =? 49) || (c =? 54) then hbl R_CUSTOM_A else if (c =? 50) || (c =? 55) then hbl R_CUSTOM_B
   else if c =? 51 then hin I_CUSTOM_LETTER else if c =? 52 then hin I_CUSTOM_PUNCT
-  else if c =? 53 then hco C_CUSTOMCORE else false.
+  else if c =? 53 then hco C_CUSTOMCORE else if c =? 56 then hin I_CUSTOM_PAIR else false.
 
 (* skip_text.rs:98-125 -- choose_text_impl over the keys of the marker map *)
 Definition choose_text_impl (charmap : list (N * list N)) : bool * list N :=
